@@ -142,6 +142,10 @@ func runC11(p *Prog, r *Report) {
 	if want("C11.10") {
 		ruleTokenContracts(p, r, "C11.10", 12)
 	}
+	if want("C11.15") {
+		// a commit's record keeps its own sequence number when it opens a new manifest (shared with C04.14)
+		ruleSessionStateMirrorsManifest(p, r, "C11.15")
+	}
 	if want("C11.14") {
 		ruleDiscardRemovesAllTables(p, r, "C11.14")
 	}
